@@ -303,13 +303,16 @@ RAAllowed(st, w, n, e, obs) ==
   ELSE IF st.rd = "err" THEN n = 0 /\ IsErr(e) /\ obs = << >>
   ELSE IF w.res = "wild" THEN TRUE
   ELSE /\ ObsOK(w, obs)
-       /\ IF w.res = "eom" THEN
+       /\ LET \* compressed message: the delivered length is the plaintext length
+               whole == IF fr[st.start].comp THEN fr[st.start].plain ELSE w.s.got - st.got
+           IN
+          IF w.res = "eom" THEN
              \* everything arrived: complete unless the fault came with the
              \* last bytes, in which case either report is allowed
-             \/ n = w.s.got - st.got /\ e.cls = "nil"
-             \/ /\ fr[w.s.cur].arr = "with" /\ IsErr(e) /\ n <= w.s.got - st.got
+             \/ n = whole /\ e.cls = "nil"
+             \/ /\ fr[w.s.cur].arr = "with" /\ IsErr(e) /\ n <= whole
           ELSE \* C05: an incomplete message is never reported complete
-             /\ IsErr(e) /\ ErrFits(w, e) /\ n <= w.s.got - st.got
+             /\ IsErr(e) /\ ErrFits(w, e) /\ n <= whole
 
 RANext(st, w, e) ==
   IF st.rd \in {"eof", "err"} THEN st
